@@ -388,6 +388,24 @@ impl ObjState for [Link] {
         early_err!(errors, "Links");
 
         for (idx, link) in self.iter().enumerate().skip(1) {
+            // Validate that all referenced link indices exist
+            if [
+                link.idx_flip,
+                link.idx_next,
+                link.idx_next_alt,
+                link.idx_prev,
+                link.idx_prev_alt,
+            ]
+            .iter()
+            .any(|link_idx| link_idx.idx() >= self.len())
+            {
+                errors.push(anyhow!(
+                    "Link {} references a link index outside of the network (number of links = {})!",
+                    link.idx_curr,
+                    self.len()
+                ));
+                continue;
+            }
             // Validate flip and curr
             if link.idx_curr.idx() != idx {
                 errors.push(anyhow!(
